@@ -163,6 +163,10 @@ def parse_overlay(path, ov=None):
             cur.serves = w[1:]; field = None
         elif d == "@ret":
             cur.ret = w[1]; field = None
+        elif d == "@refusal-implies":
+            # every intended refusal (allow-listed assert! turned into `if !(c) { vabort() }`) must prove this first:
+            # the function may refuse only inputs for which EXPR holds (e.g. "the signatures do not match")
+            cur.opts["refusal_implies"] = ln[len("@refusal-implies"):].strip(); field = None
         elif d == "@opts":
             for o in w[1:]:
                 k, _, v = o.partition("=")
@@ -263,7 +267,8 @@ def rewrite(toks, rules, opts, panic_counter):
                         cond = rewrite(args[0], rules, opts, panic_counter)
                         ctext = text(cond).strip()
                         if refusal and t.text == "assert":
-                            out.append(gen("if !(%s) { vabort() }" % ctext)); rules.hit("R5.refusal")
+                            ri = opts.get("refusal_implies")
+                            out.append(gen("if !(%s) { %svabort() }" % (ctext, ("proof { assert(%s); } " % ri) if ri else ""))); rules.hit("R5.refusal")
                         else:
                             out.append(gen("vassert(%s)" % ctext)); rules.hit("R5.assert")
                     elif t.text in ("panic", "unimplemented", "unreachable"):
@@ -284,6 +289,15 @@ def rewrite(toks, rules, opts, panic_counter):
                 if len(args) == 2 and "ErrorKind::Other" in text(args[0]):
                     msg = text(rewrite(args[1], rules, opts, panic_counter)).strip()
                     out.append(gen("io_error_other(%s)" % msg)); rules.hit("R10.ioerror"); i = e + 1; continue
+            # R16: `for X in A {` over a fixed-size array A (by value, elements in index order) -> explicit index loop (opt-in `forarray`)
+            if t.text == "for" and opts.get("forarray") and nxt is not None and nxt.kind == "ident":
+                j2 = next_sig(toks, j + 1)
+                j3 = next_sig(toks, j2 + 1) if j2 < n else n
+                j4 = next_sig(toks, j3 + 1) if j3 < n else n
+                if j4 < n and toks[j2].text == "in" and toks[j3].kind == "ident" and toks[j4].text == "{":
+                    pat = nxt.text; arr = toks[j3].text
+                    out.extend(lex("let mut i__%s: usize = 0; while i__%s < %s.len() { let %s = %s[i__%s]; i__%s = i__%s + 1;" % (pat, pat, arr, pat, arr, pat, pat, pat)))
+                    rules.hit("R16.forarray"); i = j4 + 1; continue
             # _cold();
             if t.text == "_cold" and nxt is not None and nxt.text == "(":
                 e = match_close(toks, j)
